@@ -11,7 +11,7 @@ import (
 	"go/token"
 	"go/types"
 	"os"
-	"reflect"
+	"sort"
 	"strings"
 	"unsafe"
 
@@ -1154,12 +1154,47 @@ func callBuiltin(caller *frame, callpos token.Pos, fn *ssa.Builtin, args []value
 	panic("unknown built-in: " + fn.Name())
 }
 
-func rangeIter(x value, t types.Type) iter {
+func rangeIter(i *interpreter, x value, t types.Type) iter {
 	switch x := x.(type) {
 	case map[value]value:
-		return &mapIter{iter: reflect.ValueOf(x).MapRange()}
+		// deterministic by default (sorted by printed key) so that path re-execution is
+		// reproducible; under verifMapOrderSymbolic the order of maps with 2..3 entries is a
+		// symbolic permutation (Go randomises map iteration order)
+		ents := make([][2]value, 0, len(x))
+		for k, v := range x {
+			ents = append(ents, [2]value{k, v})
+		}
+		sort.Slice(ents, func(a, b int) bool { return toString(ents[a][0]) < toString(ents[b][0]) })
+		if i != nil && i.symMapOrder && len(ents) >= 2 && len(ents) <= 3 {
+			i.mapOrderN++
+			name := fmt.Sprintf("maporder!%d", i.mapOrderN)
+			nperm := 2
+			if len(ents) == 3 {
+				nperm = 6
+			}
+			v := i.tc.Var(name, SInt)
+			i.assume(i.tc.And(i.tc.Le(i.tc.ConstI(0), v), i.tc.Lt(v, i.tc.ConstI(int64(nperm)))), "map order")
+			p := int(i.concretize(symInt{v, types.Int}, 0, int64(nperm-1), "map iteration order"))
+			perms := [][]int{{0, 1, 2}, {0, 2, 1}, {1, 0, 2}, {1, 2, 0}, {2, 0, 1}, {2, 1, 0}}
+			if len(ents) == 2 {
+				perms = [][]int{{0, 1}, {1, 0}}
+			}
+			re := make([][2]value, len(ents))
+			for k, src := range perms[p] {
+				re[k] = ents[src]
+			}
+			ents = re
+		}
+		return &sliceMapIter{ents: ents}
 	case *hashmap:
-		return &hashmapIter{iter: reflect.ValueOf(x.entries()).MapRange()}
+		var ents [][2]value
+		for _, e := range x.entries() {
+			for ; e != nil; e = e.next {
+				ents = append(ents, [2]value{e.key, e.value})
+			}
+		}
+		sort.Slice(ents, func(a, b int) bool { return toString(ents[a][0]) < toString(ents[b][0]) })
+		return &sliceMapIter{ents: ents}
 	case string:
 		return &stringIter{Reader: strings.NewReader(x)}
 	}
